@@ -121,7 +121,7 @@ func TestVfC09Listeners(t *testing.T) {
 		scripts.Store(label, sc)
 		defer scripts.Delete(label)
 		listener := rapid.SampledFrom([]string{"udp", "udp", "udp", "tcp", "gnet", "tls", "quic", "http", "fasthttp", "https"}).Draw(t, "listener")
-		edns := rapid.SampledFrom([]int{-1, 300, 512, 600, 1232, 4096, 65535}).Draw(t, "edns")
+		edns := rapid.SampledFrom([]int{-1, 0, 1, 300, 511, 512, 513, 600, 1232, 4096, 65535}).Draw(t, "edns")
 		qm := &vfkit.Msg{ID: uint16(seq), Bits: vfkit.BitRD, Q: []vfkit.Question{{Name: name, Type: 16, Class: 1}}}
 		if edns >= 0 {
 			qm.Ar = []vfkit.RR{{Type: 41, Class: uint16(edns), RData: []vfkit.RDPart{{Raw: []byte{}}}}}
